@@ -406,3 +406,23 @@ func sortedKeys(m map[int]bool) []int {
 	sort.Ints(out)
 	return out
 }
+
+// ---------------------------------------------------------------------------------------------------
+// Query groups over URN values, in every spelling: under redaction the host cannot have them (ParseQuery rejects them,
+// see neutraliseURNGroups, which asks goflow's own parser). Planting them closes the loop between the query clause and
+// the differential clause: a spelling that slips through the parser's redaction check stays in the assets and makes
+// contact.groups depend on the URN path.
+
+var urnGroupQueries = []string{`tel has 5551212`, `TEL IS "+12065551212"`, `urn HAS 2065551`, `urns.twitter is bobby`, `urns.tel Has "5551"`, `tel ~ 1206555`, `mailto = "foo@bar.com"`, `URNS.MAILTO has "foo@bar"`,
+	`twitterid is 54784326227`, `urn = "+250788123123"`, `facebook iS 1122334455`, `name ~ "bob" OR tel has 5551212`, `(urn has 3434 AND age > 1) OR urns.telegram HAS 5478432`, `tel != 12065551212`, `whatsapp hAs 250788`,
+	`urn is "bobby"`, `viber has Zx81`, `ext IS abc7788`}
+
+func plantURNGroups(r *fw.Rand, s *gen.Scenario) int {
+	groups, _ := s.Assets["groups"].([]any)
+	n := r.Range(1, 3)
+	for i := 0; i < n; i++ {
+		groups = append(groups, map[string]any{"uuid": gen.UUID4(r), "name": fmt.Sprintf("URN Query %d", i), "query": fw.Pick(r, urnGroupQueries)})
+	}
+	s.Assets["groups"] = groups
+	return n
+}
